@@ -553,6 +553,9 @@ struct Ctx<'a> {
     sblks: Vec<usize>,
     /// full replays still written for failing LARGE pairs (their begin line is up to ~1 MB)
     big_replays: usize,
+    /// fewer K lines per builder (the oracle still runs every patcher / buffer size on the real
+    /// code): for pairs whose thousands of control entries make the list-based model slow
+    klight: bool,
 }
 
 /// oracle failure of a pair; large pairs stop recording after a few failures (each replay carries
@@ -651,7 +654,9 @@ fn pair(cx: &mut Ctx, rng: &mut Rng, old: &[u8], new: &[u8], blks: &[usize], lab
         for m in modes {
             // K line: the Lean apply over the same blocks is the independent bspatch
             let areq = format!("apply {} {} {} {} {}", mode_txt(m), enc(&cx.st, &craw), enc(&cx.st, &b.diff), enc(&cx.st, &b.extra), b.out);
-            emit(s, &mut cx.st, areq.clone());
+            if !cx.klight || m == Mode::Mem || m == Mode::Stream(cx.bufs[0]) {
+                emit(s, &mut cx.st, areq.clone());
+            }
             // O: on the patch BYTES the builder returned
             let got = apply(m, old, &patch);
             let mname = match m { Mode::Mem => "mem", Mode::Stream(_) => "stream" };
@@ -693,29 +698,33 @@ fn pair(cx: &mut Ctx, rng: &mut Rng, old: &[u8], new: &[u8], blks: &[usize], lab
         let ptxt = enc(&cx.st, &patch);
         emit(s, &mut cx.st, format!("applyp mem {ptxt}{zt}"));
         s.tally("bytes.applyp");
-        let pbufs: Vec<usize> = if big { cx.bufs.clone() } else { vec![cx.bufs[0]] };
+        let pbufs: Vec<usize> = if cx.klight { vec![] } else if big { cx.bufs.clone() } else { vec![cx.bufs[0]] };
         for pb in pbufs {
             emit(s, &mut cx.st, format!("applyp stream {pb} {ptxt}{zt}"));
             s.tally("bytes.applyp");
         }
-        if big || rng.chance(1, 8) {
+        if !cx.klight && (big || rng.chance(1, 8)) {
             emit(s, &mut cx.st, format!("hdr {ptxt}"));
             emit(s, &mut cx.st, format!("container {ptxt}"));
             s.tally("bytes.container-intact");
         }
         // --- short-reading old source: K on the blocks, O on the patch bytes
         {
-            let ks: Vec<usize> = match rng.below(5) {
-                0 => vec![1],
-                1 => vec![1, 2, 3],
-                2 => vec![7, 1],
-                3 => { let (a, b2, c) = (rng.range(1, 2000) as usize, rng.range(1, 9) as usize, rng.range(1, 300) as usize); vec![a, b2, c] }
+            // (large old: no schedule of only tiny reads — the list model re-walks old on every read call)
+            let ks: Vec<usize> = match (rng.below(5), old.len() >= DIGEST_MIN) {
+                (0, false) => vec![1],
+                (1, false) => vec![1, 2, 3],
+                (2, false) => vec![7, 1],
+                (0, true) => vec![4097, 1],
+                (1, true) => vec![1000, 2, 30000],
+                (2, true) => vec![rng.range(500, 5000) as usize],
+                (3, _) => { let (a, b2, c) = (rng.range(1, 2000) as usize, rng.range(1, 9) as usize, rng.range(1, 300) as usize); vec![a, b2, c] }
                 _ => vec![usize::MAX >> 1],
             };
             let bf = *rng.pick(&cx.bufs);
             let kst = ks.iter().map(|k| k.to_string()).collect::<Vec<_>>().join(",");
             let areq = format!("apply sread {kst} {bf} {} {} {} {}", enc(&cx.st, &craw), enc(&cx.st, &b.diff), enc(&cx.st, &b.extra), b.out);
-            emit(s, &mut cx.st, areq.clone());
+            if !cx.klight { emit(s, &mut cx.st, areq.clone()); }
             s.tally("apply.short-read");
             let got = apply_src(&ks, true, Some(bf), old, &patch);
             match &got {
@@ -1026,16 +1035,20 @@ fn large_blocks(cx: &mut Ctx, rng: &mut Rng, thorough: bool) {
     // large CONTROL block: new = thousands of short slices of old in random order (one control
     // entry with a random seek each: the control block itself exceeds 32 KiB compressed)
     {
-        let m = if thorough { 12_000 } else { 8_000 };
-        let old = rng.bytes(60_000);
-        let mut new = Vec::with_capacity(m * 17);
+        let m = if thorough { 9_000 } else { 5_000 };
+        let old = rng.bytes(66_000);
+        let mut new = Vec::with_capacity(m * 16);
         for _ in 0..m {
-            let l = rng.range(9, 24) as usize;
+            let l = rng.range(9, 16) as usize;
             let at = rng.below((old.len() - l) as u64) as usize;
             new.extend_from_slice(&old[at..at + l]);
+            let x = rng.below(4) as usize;
+            new.extend(rng.bytes(x));
         }
-        cx.sblks = vec![*rng.pick(&SBLKS)];
+        cx.sblks = if thorough { vec![*rng.pick(&SBLKS)] } else { vec![] };
+        cx.klight = !thorough;
         pair(cx, rng, &old, &new, &[1 << 20], "large.many-entries");
+        cx.klight = false;
     }
     cx.sblks = vec![];
     cx.bufs = saved.0;
@@ -1124,7 +1137,7 @@ fn main() {
 
     let thorough = args.thorough();
     let bufs = if thorough { vec![1024, 4096, 1] } else { vec![1024] };
-    let mut cx = Ctx { s: &mut s, st, bufs, mutate: true, sblks: vec![], big_replays: 6 };
+    let mut cx = Ctx { s: &mut s, st, bufs, mutate: true, sblks: vec![], big_replays: 6, klight: false };
 
     // 1. exhaustive over {a,b}
     let lmax = if thorough { 6 } else { 4 };
